@@ -15,7 +15,9 @@ histories of **any** length:
   `ReverseComplementSequences`, `DiffWithFirst`, `ReplaceMatchChars`, `Mask`, `MaskOccurences` / `MaskUnique`, the general
   `RemoveCharacterSites` and `RemoveMajorityCharacterSites` included);
 * `lookup_paths_agree`, `idByName_spec`, `byName_found_iff`, `obs_*` — the access paths agree;
-* `add_wrong_length_rejected` — a sequence of the wrong length is rejected, state unchanged.
+* `add_wrong_length_rejected` — a sequence of the wrong length is rejected, state unchanged;
+* `diffWithFirst_agrees_with_row_model` / `replaceMatchChars_agrees_with_row_model` — the container-level
+  `DiffWithFirst` / `ReplaceMatchChars` are the row-level models of property C04 on every rectangular alignment.
 
 Helper developments: `Gv/Proofs/Bag*.lean`.
 -/
@@ -763,6 +765,48 @@ theorem obs_idByName (b : Bag) (n : String) :
 /-- the cached length of an alignment = the reference's length (first row, `-1` when empty) -/
 theorem obs_length (b : Bag) (h : Good b) (ha : b.isAlign = true) : b.length = (abs b).length :=
   (h.rect.abs_length ha).symm
+
+/-! ### the container-level `DiffWithFirst` / `ReplaceMatchChars` are the row-level models of property C04 -/
+
+/-- **`DiffWithFirst` on a rectangular alignment: the container model (loop over the row pointers, in-place writes) never
+panics, shows exactly the rows the C04 row-level model `Model.diffWithFirst` computes from the rows shown before, and keeps
+ids, names, index, cached length and every row length** -/
+theorem diffWithFirst_agrees_with_row_model (b : Bag) (h : Rect b) (ha : b.isAlign = true) :
+    ∃ b', diffWithFirstBag b = some b' ∧ pairs b' = diffWithFirst (pairs b) ∧ SameShape b' b := by
+  refine ⟨_, diffWithFirstBag_rect h ha, ?_, sameShape_diffWithFirst (diffWithFirstBag_rect h ha)⟩
+  rw [pairs_againstFirst, againstFirst_diffSeq]
+
+/-- **`ReplaceMatchChars` likewise** (the container reads the CACHED length, the row-level model the first row's: on a
+rectangular alignment they are the same number) -/
+theorem replaceMatchChars_agrees_with_row_model (b : Bag) (h : Rect b) (ha : b.isAlign = true) :
+    ∃ b', replaceMatchCharsBag b = some b' ∧ pairs b' = replaceMatchChars (pairs b) ∧ SameShape b' b := by
+  refine ⟨_, replaceMatchCharsBag_rect h ha, ?_, sameShape_replaceMatchChars (replaceMatchCharsBag_rect h ha)⟩
+  rw [pairs_againstFirst, againstFirst_matchSeq]
+  intro f hf
+  have hmem : f ∈ pairs b := by
+    cases hp : pairs b with
+    | nil => rw [hp] at hf; simp at hf
+    | cons x t => rw [hp] at hf; simp only [List.head?_cons, Option.mem_def, Option.some.injEq] at hf; subst hf; simp
+  exact rect_pairs_len h ha f hmem
+
+/-- the same for the history step: whenever the current object is a rectangular alignment, the step `diffFirst` /
+`replaceMatch` succeeds and the rows shown afterwards are the C04 model's -/
+theorem step_diffFirst_is_row_model (b : Bag) (h : Rect b) (ha : b.isAlign = true) :
+    (stepOp b .diffFirst).2 = "ok" ∧ pairs (stepOp b .diffFirst).1 = diffWithFirst (pairs b) ∧
+    (stepOp b .replaceMatch).2 = "ok" ∧ pairs (stepOp b .replaceMatch).1 = replaceMatchChars (pairs b) := by
+  obtain ⟨b1, e1, p1, -⟩ := diffWithFirst_agrees_with_row_model b h ha
+  obtain ⟨b2, e2, p2, -⟩ := replaceMatchChars_agrees_with_row_model b h ha
+  simp only [stepOp, ha, Bool.not_true, Bool.false_eq_true, if_false, e1, e2]
+  exact ⟨trivial, p1, trivial, p2⟩
+
+-- the hypotheses of the agreement theorems are satisfiable: a rectangular alignment whose second row matches the first in two
+-- places and already carries a point
+def demoDiff : Bag := finalState (newAlign 1) [.add "a" [65, 67, 71, 84], .add "b" [65, 84, 71, 46]]
+set_option maxRecDepth 100000 in
+example : Rect demoDiff ∧ demoDiff.isAlign = true ∧
+    pairs (stepOp demoDiff .diffFirst).1 = [("a", [65, 67, 71, 84]), ("b", [46, 84, 46, 46])] ∧
+    pairs (stepOp demoDiff .replaceMatch).1 = [("a", [65, 67, 71, 84]), ("b", [65, 84, 71, 84])] :=
+  ⟨⟨by decide, by decide⟩, by decide, by decide, by decide⟩
 
 /-! ## non-vacuity -/
 
